@@ -17,15 +17,17 @@ LEVEL_TEXT = ('Bounded model checking over schedules: n concurrent builders run 
               'amounts and targets; the no-sharing, unavailability and final-release obligations are checked on every path.')
 LEVEL_NOTE = ('Trusted: z3, the interpreter, the thread-per-coroutine scheduler (one thread runs at a time; replayed natively '
               'with the same schedule on real coroutines), the lock model (asyncio.Lock semantics: a waiter is not runnable '
-              'until the lock is free; wake-up order arbitrary, a superset of FIFO), the db stub.  Outside: the sqlite '
-              'strategy whose reservation happens in SQL, more builders/UTXOs than the bound.')
+              'until the lock is free; wake-up order arbitrary, a superset of FIFO), the db stub.  The real-db jobs run two builds in '
+              'sequence (the first still in flight, optionally a re-sync in between) over the real wallet database on the real sqlite3 '
+              'library, including the sqlite strategy whose reservation happens in SQL (concrete amount catalogues: enumerated).  Outside: '
+              'the sqlite strategy under concurrent schedules, more builders/UTXOs than the bound.')
 ASSUMPTIONS = [
     'db stub: a python list with reservation flags; every stub call yields to the scheduler before it takes effect '
     '(arbitrary completion order of database calls)',
     'model lock with asyncio.Lock semantics replaces Ledger._utxo_reservation_lock',
     'Random stub as in C03 (every shuffle outcome)',
 ]
-OUTSIDE = ['sqlite strategy (reservation inside an SQL transaction)', 'more than 3 concurrent builds']
+OUTSIDE = ['the sqlite strategy under concurrent schedules (it is covered for sequential builds over the real database, real-db jobs)', 'builds funded by different, overlapping sets of accounts', 'more than 3 concurrent builds']
 
 SCHED = [None]
 
